@@ -295,6 +295,7 @@ def run(chk: core.Check):
     for ls in core.parallel(_record, [rng.randrange(1 << 30) for _ in range(32 if quick else 320)], {"n": 40}):
         lines.extend(ls)
     rej = trace_validate(chk, lines)
+    core.canary(chk, lines, trace_validate, what="Trace_Origin", skip=set(rej))
     chk.traces_accepted += len(lines) - len(rej)
     chk.evaluations += len(lines)
     for i in rej[:25]:
